@@ -132,4 +132,13 @@ CHECKS = {
         ],
         assumptions=SIM_ASSUMPTIONS + ["fair environment: the harness, acting as the children's own controllers, marks every child Ready=True with observedGeneration=generation after every sync"],
     ),
+    "C07": dict(
+        level="model_checking",
+        rule="rollout states built directly in the cluster: per child (revision assignment: unclaimed / v1..latest) x (content: missing / v1..latest) x (health: healthy, Ready=False, no status, stale observedGeneration, wrong reason), n=1..2 children (thorough: 3 with three health values), "
+             "x method(2) x status checks(4: none, type, +status, +reason) x field paths (default; custom; custom + non-revisioned field changed) x 2 or 3 live revisions x latest revision exists or not x generateSelector x hook with its own Updated condition; one real sync from every state, clauses M0-M5",
+        units=[
+            dict(pkg=COMPOSITE, test="TestVerifC07", shards=dict(quick=16, thorough=16), budget=dict(quick=600, thorough=3300)),
+        ],
+        assumptions=SIM_ASSUMPTIONS + ["the enumerated states are a superset of the reachable rollout states (children and ControllerRevisions are written exactly as the controller writes them: real newControllerRevision / SetLastApplied); the clauses are per-sync invariants that the statement makes for any state"],
+    ),
 }
